@@ -121,7 +121,7 @@ def oracle(ctx, rng, n):
             ctx.count("builtin_tables_evaluated")
 
 
-EXPRS = ["1 + 6.0 / dT", "1.0 + 0.001 * dT", "1 + 2.0 / (dT + 10.0)", "1.02 + dT / 5000", "max(1.0, 1.2 - dT / 400)"]
+EXPRS = ["1 + 6.0 / dT", "1.0 + 0.001 * dT", "1 + 2.0 / (dT + 10.0)", "1.02 + dT / 5000", "1 + 0.05", "1.0 + 0.1 * dT / dT"]
 
 
 def oracle_expressions(ctx, rng, n):
@@ -155,6 +155,8 @@ def oracle_expressions(ctx, rng, n):
         split = region in ('clad_id', 'fuel_od', 'fuel_cl')
         n_asm = rng.randint(1, 4)
         dT = np.array([[rng.uniform(5, 150) for _ in range(n_terms)] for _ in range(n_asm)])
+        if rng.random() < 0.3:
+            dT[rng.randrange(n_asm), rng.randrange(n_terms)] = 0.0      # a rise of exactly zero (e.g. no fuel-clad gap)
         try:
             subf, expr = hotspot._read_hcf_table(path, hotspot._COLS_NEEDED[region])
             if split:
@@ -188,7 +190,11 @@ def oracle_expressions(ctx, rng, n):
                         try:
                             want = float(txt)
                         except ValueError:
-                            want = float(eval(txt, {"__builtins__": {}, "max": max, "min": min}, {"dT": float(dT[a, j])}))
+                            # (the reader's rule for a factor that cannot be evaluated - 1/0, 0/0 at a zero rise - is the neutral 1.0)
+                            with np.errstate(all='ignore'):
+                                want = float(eval(txt, {"__builtins__": {}}, {"dT": np.float64(dT[a, j])}))
+                            if not np.isfinite(want):
+                                want = 1.0
                         if abs(got[a, r_, j] - want) > 1e-12 * max(1.0, abs(want)):
                             ctx.violation("c19-expression-column", "subfactor table with expressions (%s): assembly %d, %s row %d, rise %d "
                                           "(file column %s, entry %r, rise %.6g K): factor %.9g applied, %.9g expected - the expression "
@@ -227,9 +233,10 @@ def oracle_analyze(ctx, rng, n):
         case['types'] = {k: case['types'][k] for k in names}
         for i, a in enumerate(case['assignment']):
             a['type'] = names[i % n_types] if rng.random() < 0.8 else rng.choice(names)
-        where = rng.choice(['clad_od', 'clad_mw'])
+        where = rng.choice(['clad_od', 'clad_mw']) if ci % 4 != 3 else 'coolant'
         for tn in names:
-            case['types'][tn]['FuelModel'] = dict(fuel)
+            if where != 'coolant' or rng.random() < 0.4:
+                case['types'][tn]['FuelModel'] = dict(fuel)          # (a coolant hot spot needs no pin model)
             case['types'][tn]['Hotspot'] = {'hs': dict(temperature=where, input_sigma=3, output_sigma=2, subfactors=path)}
         gi.random_power(rng, case)
         best = {}
